@@ -133,6 +133,29 @@ def parse_known():
     return known, fixed
 
 
+_CHILDREN = []
+
+
+def _reap(*_a):
+    """kill harness workers when the check itself is terminated (otherwise they are orphaned)"""
+    for c in list(_CHILDREN):
+        try:
+            c.kill()
+        except Exception:
+            pass
+    if _a:
+        os._exit(143)
+
+
+import atexit, signal as _signal
+atexit.register(_reap)
+for _sig in (_signal.SIGTERM, _signal.SIGINT):
+    try:
+        _signal.signal(_sig, _reap)
+    except Exception:
+        pass
+
+
 def run_impl_sharded(binary, args, inputs, workers=None, per_case_timeout=20.0, env=None):
     """Run the harness over `inputs` (list of strings), sharded over processes.
     A process that dies or hangs marks the line it was on and is restarted after it."""
@@ -148,6 +171,7 @@ def run_impl_sharded(binary, args, inputs, workers=None, per_case_timeout=20.0, 
     def start(lo, hi):
         p = subprocess.Popen([binary] + args, stdin=subprocess.PIPE, stdout=subprocess.PIPE,
                              stderr=subprocess.PIPE, text=True, env=env)
+        _CHILDREN.append(p)
         return p
 
     import threading
